@@ -3,6 +3,9 @@ package bitcoin_reader
 import (
 	"fmt"
 
+	"github.com/pkg/errors"
+	"github.com/tokenized/bitcoin_reader/headers"
+
 	"github.com/tokenized/pkg/wire"
 )
 
@@ -46,6 +49,15 @@ func VerifC13PreVerification() {
 	}
 	// the header repository's chain check: stands for "hashes to the BSV split header" (C03)
 	e.headers.verifyOK = func(h *wire.BlockHeader) bool { return h.Nonce == verifMagicNonce }
+	// every way the repository's chain check can say no (headers.Repository.VerifyHeader)
+	switch pick("refusal-kind", 3) {
+	case 0:
+		e.headers.verifyErr = headers.ErrUnknownHeader
+	case 1:
+		e.headers.verifyErr = errors.Wrap(headers.ErrWrongChain, "BCH")
+	case 2:
+		e.headers.verifyErr = errors.New("Header after genesis")
+	}
 
 	cmd, payload, mayExtend := conformantMessage(e, true)
 	extended := mayExtend && nondetBool("extended-framing")
@@ -71,6 +83,7 @@ func VerifC13PreVerification() {
 		verifReach("became-ready")
 		verifAssert(cmd == wire.CmdHeaders, "became-ready-without-headers-reply:"+cmd)
 		verifAssert(handshakeDone, "became-ready-before-handshake-completed")
+		verifAssert(e.headers.verified == 1 && e.headers.refused == 0, "became-ready-although-chain-check-refused-the-reply")
 		if verifyOnly {
 			verifAssert(e.conn.closed, "verify-only-node-not-disconnected-after-verification")
 			verifReach("verify-only-closed")
